@@ -221,8 +221,18 @@ def _worker_env(devices):
   os.environ.setdefault('TF_CPP_MIN_LOG_LEVEL', '3')
 
 
+_COV = None
+
+
 def _init_worker(devices, x64, repo):
   _worker_env(devices)
+  global _COV
+  if os.environ.get('VERIF_COVERAGE_DIR') and _COV is None:
+    # development aid (tools_coverage.sh): which lines of the library do the checks execute at all?
+    import coverage
+    _COV = coverage.Coverage(data_file=os.path.join(os.environ['VERIF_COVERAGE_DIR'], '.coverage'), data_suffix=True,
+                             include=['*/dinosaur/*.py'], omit=['*_test.py'])
+    _COV.start()
   if repo and repo not in sys.path:
     sys.path.insert(0, repo)
   import jax
@@ -251,6 +261,8 @@ def _run_unit(args):
   out['history'] = history
   out['error'] = err
   out['wall'] = time.time() - t0
+  if _COV is not None:
+    _COV.save()
   return out
 
 
